@@ -145,6 +145,8 @@ func VerifEngSemantics() {
 	symb := "a" + string([]byte{zzverif.ByteIn("b", "x$\xe2")}) + "\x82\xac"
 	obs("string.indexany.wide", strings.IndexAny(symb, "€$")*10+strings.IndexAny("p€q", "$€"))
 	obs("string.containsany.wide", strings.ContainsAny(symb, "£€"))
+	sy := string([]byte{byte(0x60 + k)}) // 'a'..'c', symbolic
+	obs("string.equalfold.wide", strconv.FormatBool(strings.EqualFold("é"+sy+"\u212a", "ÉBk"))+strconv.FormatBool(strings.EqualFold(sy+"é", "é"+sy))+strconv.FormatBool(strings.EqualFold("x"+sy, "Xé")))
 	var sb strings.Builder
 	sb.WriteString("ab")
 	sb.WriteByte('c')
